@@ -65,7 +65,8 @@ class FieldData:
       return self.set(self.__class__.FIELD_ALIAS[fieldname], value)
     elif self.virtual:
       raise gfapy.RuntimeError("Virtual lines do not have tags")
-    elif ((self.vlevel == 0) and not hasattr(self.__class__, fieldname)) or \
+    elif ((self.vlevel == 0) and not hasattr(self.__class__, fieldname) and
+          not self._is_instance_attribute(fieldname)) or \
          self._is_valid_custom_tagname(fieldname):
       self._define_field_methods(fieldname)
       if self._datatype.get(fieldname, None) is not None:
@@ -85,6 +86,13 @@ class FieldData:
         "existing tags: {}\n".format(", ".join(self.tagnames))+
         "aliases: {}\n".format(", ".join(self.__class__.FIELD_ALIAS.keys()))+
         "predefined tags: {}\n".format(", ".join(self.__class__.PREDEFINED_TAGS)))
+
+  def _is_instance_attribute(self, fieldname):
+    """Is fieldname the name of an attribute of the instance, which is not
+    the accessor of a tag?"""
+    attr = self.__dict__.get(fieldname, None)
+    return fieldname in self.__dict__ and \
+        not isinstance(attr, gfapy.line.common.dynamic_fields.DynamicField)
 
   def get(self, fieldname):
     """
